@@ -25,6 +25,8 @@ LEVEL = 'model_checking'
 
 
 def run(ctx):
+    import warnings
+    warnings.simplefilter('ignore', RuntimeWarning)      # rho = 0/0 on single-sample masks (outside the statement)
     lentil = import_lentil()
     zmod = sys.modules['lentil.zernike']
     rng = random.Random(1111 + ctx.seed)
@@ -136,6 +138,17 @@ def run(ctx):
                           {'mask': c['mask'], 'expected_rho_sq': ers, 'observed_rho_sq': rho_o ** 2,
                            'expected_centroid': [float(sp.rf(x)) for x in e['centroid']]}, case=None)
             continue
+        # the same mask held in another memory layout (Fortran order, a transposed view) is the same mask
+        for lay, mk in (('fortran', np.asfortranarray(mask)), ('transposed-view', np.ascontiguousarray(mask.T).T)):
+            r2, t2 = lentil.zernike_coordinates(mk)
+            if not (np.allclose(r2, rho_o, rtol=0, atol=1e-12) and np.allclose(t2, th_o, rtol=0, atol=1e-12)):
+                ctx.violation({'kind': 'depends-on-memory-layout', 'layout': lay, 'array_parity': par}, {'mask': c['mask']}, case=None)
+                break
+        # index mapping through the multi-mode entry point: plane i of the basis is the mode of the i-th requested index
+        req = [4, 2, 7, 3, 2]
+        bb = lentil.zernike_basis(mask, req)
+        if bb.shape[0] != len(req) or any(not np.allclose(bb[i], lentil.zernike(mask, req[i]), rtol=0, atol=1e-12) for i in range(min(len(req), bb.shape[0]))):
+            ctx.violation({'kind': 'basis-order'}, {'mask': c['mask'], 'requested': req, 'planes': int(bb.shape[0])}, case=None)
         if abs((rho_o * (mask != 0)).max() - 1) > 1e-12:
             ctx.violation({'kind': 'rho-not-1-at-edge', 'array_parity': par}, {'mask': c['mask']}, case=None)
         # zero outside the mask; dependence on the support only
